@@ -2,3 +2,4 @@ pub mod pool;
 pub mod math;
 pub mod vault;
 pub mod lair;
+pub mod epochs;
